@@ -1,5 +1,6 @@
 //! vcheck — property-based verification harness for scpi-rs (see /verif/DESIGN.md).
 pub mod bytes;
+pub mod cap;
 pub mod conv;
 pub mod engine;
 pub mod fixtree;
